@@ -431,6 +431,23 @@ ROUND7 = {
 }
 for _k, _v in ROUND7.items():
     CHECKS[_k]['text'] += '  ' + _v
+ROUND8 = {
+    'C02': 'Bounded: covariate models around every kind of sub-model they can wrap (pooled, Gaussian, log-normal in both parametrisations, truncated Gaussian), alone and inside compositions: value, S1 value and finite-difference gradient of a hand-written reference.',
+    'C07': 'Bounded: sequences of selections on one model against a fresh model with the last selection.',
+    'C08': 'Native owner witness with two outputs (prefixed error-model names) and re-fix / release sequences; the real population wrappers and the population predictive model.',
+    'C09': 'The outputs are published in the order of the result rows (symbolic and native, also after re-selection in another order).',
+    'C10': 'Native table witness with several protocol events of different durations.',
+    'C11': 'Reduced-model histories end with a copy that reports the parameters and sensitivity request of its original and simulates the same outputs and sensitivities; an unexpected exception of a valid operation is a refutation with its history.',
+    'C12': 'Sub-filters of three time points; the native time-order witness also runs when the symbolic stub cannot decide.',
+    'C13': 'Names and IDs per position; a sibling posterior from the same filter object.',
+    'C14': 'Two model outputs mapped to one observable.',
+    'C16': 'Bounded: the standard-normal numbers behind noise and random effects under one integer seed do not re-appear under another seed in any role; inside one prior-predictive call the noise of a sample is uncorrelated with the individuals of its neighbours.',
+    'C17': 'Every population parameter fixed; invariants on reused likelihoods.',
+    'C19': 'Population models scored with a cohort of another size than the configured one stay what they were (accepted or rejected).',
+    'C20': 'Unequal sample counts per time point.',
+}
+for _k, _v in ROUND8.items():
+    CHECKS[_k]['text'] += '  ' + _v
 NOT_APPLICABLE = {}
 
 # property id -> contract module (a module may exist before the property is claimed in CHECKS)
